@@ -1,4 +1,5 @@
 import Gengo.Model.Loader
+import Gengo.Lemmas.WalkInv
 import Gengo.Generated.Facts
 /-! # C06 – one object per type: identity is canonical and references are closed -/
 namespace Gengo.C06
@@ -151,5 +152,64 @@ theorem builtins_shared (bt : List Builtin) (u : U) (k1 k2 : Str) (b1 b2 : Built
 /-- the two keys of the real tables that share an object -/
 theorem byte_uint8_shared_v1 :
     (Generated.builtinsV1.find? (fun e => e.1 = "byte")).map (·.2.1) = (Generated.builtinsV1.find? (fun e => e.1 = "uint8")).map (·.2.1) := by decide
+
+/-! ## the whole universe, on the full model of both parsers (Lemmas/WalkInv.lean) -/
+open Gengo.Loader Gengo.WalkInv
+
+/-- **one_object_per_named_type**: in a universe built by the v2 loader (`LoadPackages` + `NewUniverse`, then any
+number of `LoadPackagesTo`) any two references – element, key, underlying type, receiver, member, method,
+parameter, result, type parameter – from anywhere, from whichever package, to objects of the same name are
+references to one object (type parameters are never shared; builtins are treated by `builtins_shared`) -/
+theorem one_object_per_name_v2 (w : World) (req : List Str) (st : LState) (h : newUniverseV2 w req = some st)
+    (o1 o2 : Nat) (ob1 ob2 : Obj) (r1 r2 : Nat) (t1 t2 : Obj)
+    (h1 : st.u.objs[o1]? = some ob1) (h2 : st.u.objs[o2]? = some ob2) (hr1 : r1 ∈ refs ob1) (hr2 : r2 ∈ refs ob2)
+    (ht1 : st.u.objs[r1]? = some t1) (ht2 : st.u.objs[r2]? = some t2) (hname : t1.name = t2.name)
+    (hk1 : t1.kind ≠ .typeParam) (hk2 : t2.kind ≠ .typeParam)
+    (hb : ∀ b ∈ w.bt, t1.name ≠ ⟨[], b.name⟩) : r1 = r2 :=
+  same_name_same_object (newUniverseV2_inv w req st h) o1 o2 ob1 ob2 r1 r2 t1 t2 h1 h2 hr1 hr2 ht1 ht2 hname hk1 hk2 hb
+
+/-- the same for the v1 `Builder` (`AddDir…` + `FindTypes`) -/
+theorem one_object_per_name_v1 (w : World) (req : List Str) (st : LState) (h : findTypesV1 w req = some st)
+    (o1 o2 : Nat) (ob1 ob2 : Obj) (r1 r2 : Nat) (t1 t2 : Obj)
+    (h1 : st.u.objs[o1]? = some ob1) (h2 : st.u.objs[o2]? = some ob2) (hr1 : r1 ∈ refs ob1) (hr2 : r2 ∈ refs ob2)
+    (ht1 : st.u.objs[r1]? = some t1) (ht2 : st.u.objs[r2]? = some t2) (hname : t1.name = t2.name)
+    (hk1 : t1.kind ≠ .typeParam) (hk2 : t2.kind ≠ .typeParam)
+    (hb : ∀ b ∈ w.bt, t1.name ≠ ⟨[], b.name⟩) : r1 = r2 :=
+  same_name_same_object (findTypesV1_inv w req st h) o1 o2 ob1 ob2 r1 r2 t1 t2 h1 h2 hr1 hr2 ht1 ht2 hname hk1 hk2 hb
+
+/-- **nothing_left_unresolved**: in a loaded universe (v2 / v1) every object referenced from anywhere has a kind:
+no reference leads to an unresolved placeholder -/
+theorem nothing_unresolved_v2 (w : World) (req : List Str) (st : LState) (h : newUniverseV2 w req = some st)
+    (o : Nat) (ob : Obj) (r : Nat) (h1 : st.u.objs[o]? = some ob) (hr : r ∈ refs ob) :
+    ∃ t : Obj, st.u.objs[r]? = some t ∧ t.kind ≠ .unknown :=
+  nothing_unresolved (newUniverseV2_inv w req st h) o ob r h1 hr
+
+theorem nothing_unresolved_v1 (w : World) (req : List Str) (st : LState) (h : findTypesV1 w req = some st)
+    (o : Nat) (ob : Obj) (r : Nat) (h1 : st.u.objs[o]? = some ob) (hr : r ∈ refs ob) :
+    ∃ t : Obj, st.u.objs[r]? = some t ∧ t.kind ≠ .unknown :=
+  nothing_unresolved (findTypesV1_inv w req st h) o ob r h1 hr
+
+/-- **incremental_loading_keeps_it**: an incremental load (v2 `LoadPackagesTo`, v1 `AddDirTo`) of a universe that
+is closed and canonical leaves it so, never unregisters or renames an object and never takes a kind away -/
+theorem incremental_keeps_invariant (w : World) (st st' : LState) (hinv : WalkInv.Inv w.bt st.u) :
+    (∀ more, loadToV2 w st more = some st' → WalkInv.Inv w.bt st'.u ∧ Grows st.u st'.u) ∧
+    (∀ path, addDirToV1 w st path = some st' → WalkInv.Inv w.bt st'.u ∧ Grows st.u st'.u) :=
+  ⟨fun more h => loadToV2_inv w st st' more hinv h, fun path h => addDirToV1_inv w st st' path hinv h⟩
+
+/-- … and `walkType` itself, called by hand on any universe that has the invariant (lookups interleaved with
+loading), keeps it and returns a registered object with a kind -/
+theorem walk_keeps_invariant (bt : List Builtin) (F : Facts) (v2 : Bool) (fuel : Nat) (u : U) (g : Nat) (un : Option Name)
+    (u' : U) (o : Nat) (hinv : WalkInv.Inv bt u) (h : walk bt F v2 fuel u g un = some (u', o)) :
+    WalkInv.Inv bt u' ∧ Grows u u' ∧ GoodRef u' o := by
+  have p := walk_inv bt F v2 fuel u g un u' o hinv h
+  exact ⟨p.inv, p.grows, p.good⟩
+
+/-- hand lookups keep the invariant, too -/
+theorem type_lookup_keeps_invariant (bt : List Builtin) (u : U) (n : Name) (hinv : WalkInv.Inv bt u) :
+    WalkInv.Inv bt (U.type bt u n).1 ∧ Grows u (U.type bt u n).1 :=
+  ⟨(type_inv n hinv).1, (type_inv n hinv).2.1⟩
+
+/-! non-vacuity: the empty universe has the invariant, and walking `type T struct { Next *T }` keeps it -/
+example (bt : List Builtin) : WalkInv.Inv bt {} := inv_empty bt
 
 end Gengo.C06
